@@ -5,6 +5,9 @@
 package varlink
 
 import (
+	"context"
+	"encoding/json"
+	"io"
 	"net"
 
 	"github.com/varlink/go/varlink/internal/ctxio"
@@ -31,8 +34,30 @@ func (s *Service) VerifPeek() (running bool, listener net.Listener, conncount in
 	return s.running, s.listener, s.conncounter, s.protocol, s.address
 }
 
-// VerifNames returns a copy of the registered names in order.
-func (s *Service) VerifNames() []string { return append([]string(nil), s.names...) }
+// VerifNames returns the registered names in order, as an in-process GetInfo reports them (no private state
+// is read: a tree that keeps its table differently still builds with this file).
+func (s *Service) VerifNames() []string {
+	var cp verifCapture
+	if err := s.HandleMessage(context.Background(), &cp, []byte(`{"method":"org.varlink.service.GetInfo"}`)); err != nil || len(cp.out) == 0 {
+		return nil
+	}
+	var rep struct {
+		Parameters struct {
+			Interfaces []string `json:"interfaces"`
+		} `json:"parameters"`
+	}
+	json.Unmarshal(cp.out[:len(cp.out)-1], &rep)
+	return rep.Parameters.Interfaces
+}
+
+type verifCapture struct{ out []byte }
+
+func (c *verifCapture) Write(ctx context.Context, b []byte) (int, error) {
+	c.out = append(c.out, b...)
+	return len(b), nil
+}
+func (c *verifCapture) Read(ctx context.Context, b []byte) (int, error)          { return 0, io.EOF }
+func (c *verifCapture) ReadBytes(ctx context.Context, d byte) ([]byte, error) { return nil, io.EOF }
 
 // VerifNewResolver wraps an established connection exactly as NewResolver does after dialling.
 func VerifNewResolver(c *Connection, address string) *Resolver {
